@@ -48,6 +48,18 @@ CHECKS = {
     "C12": ("fault_enumeration", "deterministic simulation with crash, power-loss and frame-damage injection inside batch appends; batch-atomicity oracle",
             "DESIGN.md §5 C12", "Batch-heavy seeded histories; crash points as C02 (plus power loss under Always(FlushAndFsync)) and single-frame payload/header damage of every frame of batch entries; each batch must be recovered whole, not at all, or minus a truncated leading part.",
             "As C02 and C08; batches identified by the unique op id inside every payload."),
+    "C07": ("exploration", "deterministic simulation (fault-free configuration): directed alignment grid over simulated WAL files, independent WAL parser as oracle",
+            "DESIGN.md §5 C07", "Cursor-steered directed histories cover the complete (bytes left before) x (bytes left after) x (blocks spanned) x (what follows) grid in the quick tier already, plus random cells; the SimFs image is parsed by independent code and compared with what was written; restart round-trip and end-of-log cursor agreement.",
+            "Pure input-space property: no fault injected; the simulator contributes simulated files (roll-over mid-entry), restart at the same alignment, short-write/EINTR buggify."),
+    "C13": ("exploration", "deterministic simulation: per-call effect-trace oracle plus differential run (history with / without rejected and no-op calls) on simulated disks",
+            "DESIGN.md §5 C13", "Rejected / no-op calls of 7 shapes are inserted into seeded histories; each must perform no mutating FS effect and report 0 bytes; aligned calls of both runs must produce identical outcomes, states and write effects, and byte-identical final images.",
+            "Read-only / sync effects during a rejected call are tolerated."),
+    "C14": ("exploration", "deterministic simulation: one history executed under five persist policies with a simulated clock, call-by-call comparison",
+            "DESIGN.md §5 C14", "Same explicit call sequence (with clock ticks and explicit persists) under DoNothing, OnDelay (4 intervals x 2 actions), Always(Flush), Always(FlushAndFsync); executions must agree on every outcome and observable state.",
+            "Simulated Instant behind the H4 hook; wal_bytes_written / image equality are statistics only."),
+    "C18": ("exploration", "deterministic simulation: metamorphic projection (history vs history restricted to one queue) on separate simulated disks, live and after injected crashes",
+            "DESIGN.md §5 C18", "For every queue of every seeded history the projection runs on a fresh simulated disk; outcomes and the queue's observable content must agree at corresponding points; crash variant recovers from crashes inside calls addressed to other queues.",
+            "No reference model involved in the oracle; process-crash model in the crash variant."),
 }
 
 NOT_YET = {
